@@ -111,6 +111,10 @@ def _worker(ys):
                 src = ymd if conv is None else mk(tu.func(conv)).run([ymd])
                 fn = tu.func(fname)
                 W = WINDOW[unit]
+                if (cal, unit) == ("ymcw", "d") and not every:
+                    # the weekday enters a table index, so this adder folds point by point (7 ms each): the quick tier takes a third
+                    # of the window (four months either way), the thorough tier all of it
+                    W = 130
                 work = [(-W, W)]
                 if (d.month, d.day) in FAR_STARTS:
                     work += [(sg * c, sg * c) for c in FAR[unit] for sg in (1, -1)]
@@ -177,7 +181,7 @@ def run_parallel(R, tu, rule, todo, every=False, jobs=12):
     for cal, unit, fname in todo:
         key = (fname, cal)
         if key not in bad:
-            R.ob(rule, "%s: for every start of the class years and every count within +-%d, and for the far counts +-%s from three "
+            R.ob(rule, "%s: for every start of the class years and every count within +-%d (quick tier, __ymcw_add_d: +-130), and for the far counts +-%s from three "
                  "starts a year, the result is the %s date that many %s away" % (fname, WINDOW[unit], FAR[unit], cal, UN[unit]), True)
         else:
             lst = sorted(bad[key])
